@@ -23,16 +23,23 @@ fn coalesce(mut rs: Vec<(u64, u64)>) -> Vec<(u64, u64)> {
 /// Replays TLC-generated decoder cases on `from_sparse_bit_set_bounded`.
 pub fn replay_cmd(args: &[String]) {
     let path = arg_after(args, "--cases").expect("--cases");
+    // --top: the case's `max` is the headroom k below u32::MAX: decode with bias = MAX - k and maximum MAX; the
+    // members, as offsets from the bias, must be the specification's answer for (bias 0, maximum k)
+    let top = args.iter().any(|a| a == "--top");
     let mut rep = Report::default();
     let mut nontrivial = 0u64;
     fvcore::tlc_stream(&path, &["CASE"], |_, c| {
         rep.evaluations += 1;
         let bytes = bytes_of(&c["bytes"]);
-        let bias = c["bias"].as_u64().unwrap() as u32;
-        let max = c["max"].as_u64().unwrap() as u32;
+        let (bias, max, shift) = if top {
+            let k = c["max"].as_u64().unwrap() as u32;
+            (u32::MAX - k, u32::MAX, (u32::MAX - k) as u64)
+        } else {
+            (c["bias"].as_u64().unwrap() as u32, c["max"].as_u64().unwrap() as u32, 0u64)
+        };
         let exp_err = c["err"].as_bool().unwrap();
         let exp_ranges = coalesce(
-            c["ranges"].as_array().unwrap().iter().map(|r| (r[0].as_u64().unwrap(), r[1].as_u64().unwrap())).collect(),
+            c["ranges"].as_array().unwrap().iter().map(|r| (r[0].as_u64().unwrap() + shift, r[1].as_u64().unwrap() + shift)).collect(),
         );
         let exp_rem = c["rem"].as_u64().unwrap() as usize;
         let r = guarded(|| {
